@@ -911,6 +911,12 @@ impl Prop for C10 {
     fn from_bytes(data: &[u8]) -> Option<Case> {
         from_bytes(data)
     }
+    fn fuzz(t: Tier) -> Option<FuzzSpec> {
+        match t {
+            Tier::Quick => None,
+            Tier::Thorough => Some(FuzzSpec { target: "c10_routing", runs: 1000000, max_len: 256 }),
+        }
+    }
 }
 
 /// fuzz decoding: [mask u16][how][perm][form] then per request [kind][...]
